@@ -284,14 +284,14 @@ class Sgp4Beta:
 
         i0, Ω0, e0, ω0, M0, n0 = self.tle
         n0 *= 60  # conversion to min⁻¹
+        if isinstance(date, timedelta):
+            date = self.tle.date + date
+
         if isinstance(date, Date):
             # Like the reference implementation (and the Sgp4 wrapper), the time since epoch
             # is the difference of the UTC readings: a leap second in between is not counted
             t0 = self.tle.date.change_scale("UTC").datetime
             tdiff = (date.change_scale("UTC").datetime - t0).total_seconds() / 60.0
-        elif isinstance(date, timedelta):
-            tdiff = date.total_seconds() / 60.0
-            date = self.tle.date + date
         else:
             raise TypeError(f"Unhandled type for 'date': {type(date)}")
 
